@@ -201,6 +201,15 @@ func init() {
 			sb.WriteString("\n/-- statement shape of `TSDDecoder.reset`: `if{…}else{…}`, `set:<field>`, `call:<f>`, `return`, in source order -/\n")
 			sb.WriteString("def tsdDecoderPrivateResetShape : List String := " + LeanStrList(stmtShape(fd.Body.List)) + "\n")
 		}
+		_, srd, err := ParseFile(repo, "pkg/stream/reader.go")
+		if err != nil {
+			return "", err
+		}
+		r9, err := c14Round9Facts(fo, srd)
+		if err != nil {
+			return "", err
+		}
+		sb.WriteString(r9)
 		return sb.String(), nil
 	}})
 }
